@@ -35,3 +35,99 @@ def family_two_market_removal(tier, seed):
         out.append(two_market_removal("x_rm_seq_%d" % i, af=af))
         out.append(two_market_removal("x_rm_evt_%d" % i, af=af, event_processing=True))
     return out
+
+
+def settlement_scenario(sid, mtype, statuses, winners, prices, size, ewd=None, line=None, line_result=None, clients=1):
+    """full-match market: every order is matched in full at its own price, a BACK and a LAY at the same
+    price/size on every runner (identical fills), then the market closes with the given statuses"""
+    runners = [11 + i for i in range(len(statuses))]
+    rstat_open = {str(r): ["ACTIVE", None, None] for r in runners}
+    ups = [{"pt": 1000 * k, "version": 1, "rstat": rstat_open, "books": {str(r): _bk([], [], []) for r in runners}} for k in range(4)]
+    ups.append({"pt": 5000, "status": "CLOSED", "version": 2, "rstat": {str(r): [statuses[i], None, None] for i, r in enumerate(runners)}, "books": {}})
+    m = {"id": "1.100000001", "event_id": "30000001", "market_type": mtype, "winners": winners, "bsp": True, "persistence": True, "runners": runners, "updates": ups}
+    if ewd:
+        m["each_way_divisor"] = ewd
+    acts = []
+    n = 0
+    for i, r in enumerate(runners):
+        for side in ("BACK", "LAY"):
+            n += 1
+            a = {"op": "place", "o": "o%d" % n, "t": "t%d" % n, "sel": r, "side": side, "price": prices[i % len(prices)], "size": size}
+            if line:
+                a["ladder"] = "LINE_RANGE"
+                a["line"] = line
+            acts.append(a)
+    scn = {"id": sid, "cfg": {"full_match": True}, "markets": [m],
+           "strategies": [{"name": "A", "max_live_trade_count": 100, "script": {"1.100000001|0|book": acts}}]}
+    if line:
+        m["ladder"] = "LINE_RANGE"
+        m["betting_type"] = "LINE"
+        m["line"] = [line[1], line[0], line[2]]
+        scn["line_results"] = {"1.100000001": line_result}
+    if clients > 1:
+        scn["clients"] = [{"name": "c1", "commission": 0.05}, {"name": "c2", "commission": 0.02}]
+    return scn
+
+
+def family_settlement(tier, seed):
+    out = []
+    k = 0
+    prices_sets = [[1.01, 2.0, 3.5], [1.5, 10.0, 50.0]] if tier == "quick" else [[1.01, 2.0, 3.5], [1.5, 10.0, 50.0], [1.02, 4.1, 29.0], [100.0, 6.2, 1.2]]
+    sizes = [2.0, 2.36] if tier == "quick" else [2.0, 2.36, 0.5, 17.77]
+    for prices in prices_sets:
+        for size in sizes:
+            for mtype, statuses, winners, ewd in [
+                ("WIN", ["WINNER", "LOSER", "LOSER"], 1, None),
+                ("WIN", ["WINNER", "WINNER", "LOSER"], 1, None),      # dead heat of two
+                ("WIN", ["WINNER", "WINNER", "WINNER"], 1, None),     # dead heat of three
+                ("WIN", ["REMOVED", "WINNER", "LOSER"], 1, None),
+                ("PLACE", ["WINNER", "WINNER", "LOSER"], 2, None),
+                ("EACH_WAY", ["WINNER", "PLACED", "LOSER"], 1, 4.0),
+                ("EACH_WAY", ["PLACED", "WINNER", "LOSER"], 1, 5.0),
+            ]:
+                k += 1
+                out.append(settlement_scenario("x_st_%d" % k, mtype, statuses, winners, prices, size, ewd=ewd))
+    for result in ([149.5, 150.5, 151.5, 150.0, 151.0] if tier == "thorough" else [149.5, 151.5, 151.0]):
+        for line in ([150.5, 151.0] if tier == "thorough" else [150.5, 151.0]):
+            k += 1
+            out.append(settlement_scenario("x_line_%d" % k, "COMBINED_TOTAL", ["WINNER"], 1, [line], 2.0, line=[0.5, 300.5, 0.5], line_result=result))
+    return out
+
+
+def closure_scenario(sid, pattern, n_strategies=2, second_market=None, place=True, empty_filter=False):
+    """pattern: string over O (open update), C (closed update), e.g. 'OOC', 'OOCC', 'OOCOC', 'C'"""
+    def market(mid, t0, pat):
+        ups = []
+        for k, ch in enumerate(pat):
+            if ch == "O":
+                ups.append({"pt": t0 + 1000 * k, "version": 1 + k, "books": {"11": _bk([[2.0, 10]], [[2.4, 10]], [[2.2, 2.0 * k]]), "12": _bk([[3.0, 10]], [[3.4, 10]], [])}})
+            else:
+                ups.append({"pt": t0 + 1000 * k, "status": "CLOSED", "version": 1 + k, "rstat": {"11": ["WINNER", None, None], "12": ["LOSER", None, None]}, "books": {}, "force_md": True})
+        return {"id": mid, "event_id": "30000001", "market_type": "WIN", "winners": 1, "bsp": True, "persistence": True, "runners": [11, 12], "updates": ups}
+    markets = [market("1.100000001", 0, pattern)]
+    if second_market:
+        markets.append(market("1.100000002", second_market[1], second_market[0]))
+    strategies = []
+    for i in range(n_strategies):
+        name = "ABC"[i]
+        script = {}
+        if place and "O" in pattern:
+            t = 1000 * pattern.index("O")
+            script["1.100000001|%d|book" % t] = [{"op": "place", "o": "%so1" % name.lower(), "sel": 11, "side": "BACK", "price": 2.0, "size": 2.0}]
+        st = {"name": name, "markets": [0] if (i == 1 and second_market) else list(range(len(markets))), "script": script, "max_live_trade_count": 5}
+        if empty_filter and i == n_strategies - 1:
+            st["empty_filter"] = True
+        strategies.append(st)
+    return {"id": sid, "cfg": {}, "markets": markets, "strategies": strategies, "clients": [{"name": "c1"}, {"name": "c2", "commission": 0.02}]}
+
+
+def family_closure(tier, seed):
+    out = []
+    pats = ["OOC", "OOCC", "OOCOC", "C", "OC", "OOCCOCC", "CC", "OOO"]
+    for i, p in enumerate(pats):
+        out.append(closure_scenario("x_cl_%d" % i, p))
+        out.append(closure_scenario("x_cl_e%d" % i, p, n_strategies=3, empty_filter=True))
+    out.append(closure_scenario("x_cl_two_a", "OOC", second_market=("OOOC", 100000)))
+    out.append(closure_scenario("x_cl_two_b", "OOOOC", second_market=("OC", 100000)))
+    out.append(closure_scenario("x_cl_two_c", "C", second_market=("OOC", 100000)))
+    return out
